@@ -22,7 +22,7 @@ RULE = ('seq: operation sequences on one ring (write lengths 0..cap/8+1, read li
 ASSUMPTIONS = [
     'message type ids are the command codes AeronCommand::from_command_id maps back (1..14, 0xF01..0xF0A); 0xF9 is C14\'s business',
     'write lengths are 0..cap/8 (+1 for the TooLong stream); negative lengths belong to C16',
-    'the preset head cache is at most 2^31-1 bytes behind the tail (a cache staler than that needs a producer parked while 2 GiB pass)',
+    'the preset head cache may be arbitrarily stale (any value in [0, head]); positions stay below 2^62',
     'conc: sequentially consistent interleaving at the granularity of AtomicBuffer accessors; every write of a case has its own type id',
 ]
 
@@ -49,6 +49,10 @@ def generate(rng, tier):
             ops = [['w', 1, cap // 8, 0], ['w', 2, 0, 0], ['r', 1], ['w', 3, 1, 0], ['s'], ['r', R.INF], ['r', R.INF], ['u'], ['i'], ['i'], ['h', 12345678901]]
             cases.append(_mk(cap, p0, ops, c0=2**63 - 1 if p0 == 8 else 7))
             cases.append(_mk(cap, p0, ops, hc0=max(0, p0 - cap)))
+            if p0 >= 2**32:
+                # head cache stale by about 4 GiB: the 64-bit comparison must not be fooled
+                cases.append(_mk(cap, p0, [['w', 1, 0, 0]] * (cap // 8 + 2) + [['r', R.INF]], hc0=p0 - 2**32 + 8))
+                cases.append(_mk(cap, p0, ops, hc0=p0 - 2**32))
             cases.append(_mk(cap, p0, [['w', 1, cap // 8 + 1, 0], ['w', -1, 0, 0], ['w', 14, 0, 0], ['r', -1], ['r', 1]]))
     # exhaustive / sampled short sequences over the write-length x read-limit alphabet
     for cap in (8, 16, 32, 64):
@@ -84,7 +88,8 @@ def generate(rng, tier):
                 ops.append(['r', rng.choice([0, 1, 2, 3, 5, R.INF])])
             else:
                 ops.append(rng.choice([['s'], ['i'], ['u'], ['h', rng.randrange(0, 2**62)], ['d']]))
-        cases.append(_mk(cap, p0, ops, dumps=False, c0=rng.choice([0, 2**63 - 2, -5, rng.randrange(0, 2**62)])))
+        cases.append(_mk(cap, p0, ops, dumps=False, c0=rng.choice([0, 2**63 - 2, -5, rng.randrange(0, 2**62)]),
+                         hc0=rng.choice([p0, p0, max(0, p0 - cap), max(0, p0 - 2**32 + 8), max(0, p0 - 2**31), 0])))
     # malformed stream: too long, non-positive type
     for _ in range(30 if not big else 300):
         cap = rng.choice([8, 16, 64, 256])
